@@ -49,7 +49,7 @@ def with_persistence():
     base = tempfile.mkdtemp(prefix="amsverif_c11_")
     loop = asyncio.new_event_loop()
     for version in (None, "2.2"):
-        for scenario in ("plain", "save-fails", "stale-file", "import-other-file"):
+        for scenario in ("plain", "save-fails", "stale-file", "import-other-file", "restart", "restart-static"):
             n += 1
             d = os.path.join(base, f"s{n}")
             os.mkdir(d)
@@ -57,12 +57,17 @@ def with_persistence():
             tr = ScriptedTransport()
             gw = Gateway(tr, Config(persistence_file=path))
             handed: list[str] = []
+            box = [gw, tr]
 
-            async def session(k, after=None):
+            async def session(k, after=None, first=()):
+                gw, tr = box
                 async with gw:
                     agen = gw.listen()
                     if version and not gw.protocol_version:
                         tr.inq.append(f"0;255;3;0;2;{version}")
+                        await agen.__anext__()
+                    for line in first:
+                        tr.inq.append(line)
                         await agen.__anext__()
                     for _ in range(k):
                         tr.writes = []
@@ -109,6 +114,17 @@ def with_persistence():
                     with open(path, "w") as f:      # a backup from before is restored by the operator
                         f.write(snapshot)
                     loop.run_until_complete(session(2))
+                elif scenario in ("restart", "restart-static"):
+                    # the controller is restarted: a new Gateway object restores the registry from the
+                    # file; the nodes that got an id (or presented only themselves, with a static id)
+                    # have not presented anything else yet
+                    first = ("9;255;0;0;17;1.4",) if scenario == "restart-static" else ()
+                    loop.run_until_complete(session(2, first=first))
+                    tr2 = ScriptedTransport()
+                    box[:] = [Gateway(tr2, Config(persistence_file=path)), tr2]
+                    loop.run_until_complete(session(2))
+                    if scenario == "restart-static" and "9" in handed:
+                        handed.append("9")   # id 9 belongs to the static node: reported as handed out twice
                 else:
                     loop.run_until_complete(session(2, import_other))
                     loop.run_until_complete(session(1))
